@@ -445,6 +445,14 @@ def standard_run(ctx):
             proof_problems += audit(ctx, modules, theorems)
             if ctx.tier == "thorough" and not proof_problems:
                 proof_problems += leancheck(ctx, modules)
+    else:
+        # translator failed: the proofs are about a stale table and are NOT counted; the driver is
+        # still built on the stale table so that the search for a failing input can run
+        ctx.cov["obligations"] = len(theorems)
+        if driver:
+            ok2, out2 = build_lean(ctx, [driver])
+            if ok2:
+                driver_bin = os.path.join(LEAN, ".lake", "build", "bin", driver)
     if hasattr(prop, "extra_proof_checks") and ok_tr:
         proof_problems += prop.extra_proof_checks(ctx)
     broken = bool(proof_problems) or ctx.tie_broken is not None
@@ -457,11 +465,11 @@ def standard_run(ctx):
         problems, results = correspond(ctx, harness_bin, driver_bin, n, env=env,
                                        classify=getattr(prop, "classify", None),
                                        nontrivial=getattr(prop, "nontrivial", None))
-        if hasattr(prop, "check_distribution"):
+        decide(ctx, problems, harness_bin, driver_bin, env)
+        if hasattr(prop, "check_distribution") and not ctx.violations and not broken:
             msg = prop.check_distribution(ctx.cov["correspondence"]["distribution"], ctx.cov["correspondence"]["cases"])
             if msg:
                 raise MachineryFault("degenerate generator distribution: " + msg)
-        decide(ctx, problems, harness_bin, driver_bin, env)
     if hasattr(prop, "extra") and harness_bin:
         prop.extra(ctx, harness_bin, driver_bin)
     if broken and not ctx.violations:
